@@ -74,7 +74,7 @@ def run(ctx):
                           model="rejects" if e["model_illegal"] else "accepts", text=bytes(e["src"]).decode("latin-1")))
     nprog = base + len(fulls)
     ref = ctx.ref_parse(origs)
-    valid = {n for n in range(nprog) if ref["o%d" % n]["v8"] and ref["o%d" % n]["acorn"]}
+    valid = {n for n in range(nprog) if ref["o%d" % n].get("v8") and ref["o%d" % n].get("acorn")}
     ctx.log("%d of %d rendered programs are JavaScript for both reference parsers" % (len(valid), nprog))
     items = [i for i in items if i["prog"] in valid]
     seen, uniq = set(), []
@@ -87,8 +87,8 @@ def run(ctx):
     # a text rejected only because a name is declared twice is not a matter of syntax (xjs has no scope analysis)
     redecl = lambda r: "already been declared" in (r.get("v8err") or "") or "already been declared" in (r.get("acornerr") or "")
     ctx.cov["rejected_for_redeclaration_skipped"] = sum(1 for i in items if redecl(ref2[i["id"]]))
-    rejected = [i for i in items if not ref2[i["id"]]["v8"] and not ref2[i["id"]]["acorn"] and not redecl(ref2[i["id"]])]
-    disagree = sum(1 for i in items if ref2[i["id"]]["v8"] != ref2[i["id"]]["acorn"])
+    rejected = [i for i in items if not ref2[i["id"]].get("skip") and not ref2[i["id"]]["v8"] and not ref2[i["id"]]["acorn"] and not redecl(ref2[i["id"]])]
+    disagree = sum(1 for i in items if ref2[i["id"]].get("v8") != ref2[i["id"]].get("acorn"))
     ctx.log("%d distinct corrupted texts, %d rejected by both reference parsers (%d reference disagreements skipped)"
             % (len(items), len(rejected), disagree))
     ctx.cov["programs"] = len(valid)
